@@ -12,5 +12,7 @@ import DSymVerif.Props.C05
 #print axioms DSymVerif.C05.table_cover_is_covering
 #print axioms DSymVerif.C05.subgroup_cover_is_covering
 #print axioms DSymVerif.C05.finite_universal_cover_is_covering
+#print axioms DSymVerif.C05.covers_one_entry_per_conjugacy_class
+#print axioms DSymVerif.C05.covers_pairwise_nonisomorphic
 #print axioms DSymVerif.C05.cover_fibres
 #print axioms DSymVerif.C05.monitors_sound
